@@ -378,7 +378,7 @@ func c01Classes(c c01Case, res c01Result) (bool, string, []string) {
 func TestC01(t *testing.T) {
 	rec := evid.For("C01")
 	rec.Rule = "library client <-> library server over a tapped in-memory transport: rapid draws the 3x3 compression modes, thresholds {default,1,64,512,5000,100000}^2, transport buffer capacity and read chunking, 0-12 messages per direction (both directions at once) with boundary-biased lengths (0..70000, framing boundaries 125/126/65535/65536, multiples of 4096, 1 MiB, 1 MiB+1; thorough: 4 MiB), five content kinds incl. long-range repeats beyond the 32 KiB window, Write or Writer with chunk lists from {0,1,3,125,126,4095,4096,4097,8192,40000} or a Writer message interrupted by a Ping call after its first Write, or a second Close on the writer of an earlier message (which must send nothing), in a quarter of the cases a Write of up to 70000 bytes is first held up by the transport after a drawn number of bytes and the caller's buffer compared while the call is blocked, in a sixth of the cases the client starts writing as soon as it has the 101 so that its first frames are already buffered in the hijacked bufio.Reader when Accept takes over; read by Read or Reader with buffers 1..32768; plus a deterministic boundary sweep. Oracle: same count, order, type, byte-identical payloads, clean EOF, caller buffers unchanged, nothing extra. Non-trivial: the wire tap shows an RSV1 message or a message of >=2 frames. distinct = hash(modes, thresholds, transport, per-message (kind, content kind, length class, chunks))."
-	rapid.Check(t, func(rt *rapid.T) {
+	checkProp(t, func(rt *rapid.T) {
 		var c c01Case
 		c.Spec.ClMode = rapid.SampledFrom(c01Modes).Draw(rt, "clMode")
 		c.Spec.SvMode = rapid.SampledFrom(c01Modes).Draw(rt, "svMode")
